@@ -42,6 +42,23 @@ if fid == 'F-08':
 if fid == 'F-07':
     text, errs, _ = apply_ops(w['doc'], w['ops'])
     out(errs == [None] and ts(text).has_error, 'emitted %r' % text)
+if fid in ('F-09', 'F-10', 'F-25', 'F-26') and prop in ('C10', 'C11'):
+    from nix_manipulator.exceptions import ResolutionError
+    if prop == 'C11':
+        text, errs, _ = apply_ops(w['doc'] + '\n', [['set', w['path'][0], '777']])
+        out('a = 2' not in ' '.join(text.split()) and 'a = 1' in ' '.join(text.split()), 'result %r' % text)
+    x = parse(w['doc'])
+    try:
+        for k in w['path']: x = x[k]
+        v = x.value if hasattr(x, 'value') and type(x).__name__ == 'Identifier' else x
+        got = v.rebuild().strip() if hasattr(v, 'rebuild') else repr(v)
+    except ResolutionError as e: got = 'RESERR'
+    want = w['nix']
+    out((got != want) if want != 'UNBOUND' else (got != 'RESERR'), 'resolution gives %s, Nix gives %s' % (got, want))
+if fid == 'F-19':
+    from costlib import count_calls
+    c8, c16 = count_calls('a: ' * 8 + 'x'), count_calls('a: ' * 16 + 'x')
+    out(c16 > 100 * c8, 'rebuild calls at depth 8: %d, at depth 16: %d' % (c8, c16))
 if fid == 'F-33':
     r = parse(w['input']).rebuild()
     out(r != w['input'], 'rebuilt %r' % r)
